@@ -743,9 +743,12 @@ func runC10(r *vfw.Run) {
 	lr.l.Mix.Adversarial = 10
 	addrs := lr.actors()
 	idUpdates := 0
+	poolsBefore := map[common.Address]bool{}
+	var lastBlock *types.Block
 	check := func(n *simnode.Node, when string) {
 		var live, fresh string
 		var regErr string
+		regPred := "C10:registry-disagrees-with-ledger"
 		n.Do(func() {
 			live = oracle.ValidatorsText(n.App.ValidatorsCache, addrs)
 			fresh = freshValidatorsText(n, addrs)
@@ -769,6 +772,16 @@ func runC10(r *vfw.Run) {
 				}
 				if ai.Online && !ai.Validated && !n.App.ValidatorsCache.IsPool(a) && regErr == "" {
 					regErr = fmt.Sprintf("%x is online but neither validated nor a pool", a[:6])
+					regPred = "C10:registry-disagrees-with-ledger/online-but-neither-validated-nor-pool"
+					// which history: a pool (in the view before this block) that terminated its own identity in this block?
+					if lastBlock != nil && poolsBefore[a] {
+						for _, tx := range lastBlock.Body.Transactions {
+							if snd, _ := types.Sender(tx); snd == a && tx.Type == types.KillTx {
+								regPred = "C10:registry-disagrees-with-ledger/pool-that-killed-itself-and-lost-its-delegators-switched-online"
+								regErr += " (it was a pool before this block, sent KillTx in it and has no delegator left)"
+							}
+						}
+					}
 				}
 				if v10 && id.State.NewbieOrBetter() && regErr == "" {
 					ld := id.Delegatee()
@@ -788,10 +801,19 @@ func runC10(r *vfw.Run) {
 			r.Violate("C10:live-view-differs-from-rebuilt-view", "%s on node %d at h=%d: %s", when, n.ID, n.Chain.Head.Height(), oracle.FirstTextDiff(live, fresh))
 		}
 		if regErr != "" {
-			r.Violate("C10:registry-disagrees-with-ledger", "%s on node %d at h=%d: %s", when, n.ID, n.Chain.Head.Height(), regErr)
+			r.Violate(regPred, "%s on node %d at h=%d: %s", when, n.ID, n.Chain.Head.Height(), regErr)
 		}
 	}
-	lr.loop("", nil, func(rr *scen.RoundResult) {
+	lr.loop("", func(rr *scen.RoundResult) bool {
+		n0 := lr.nodes[0]
+		n0.Do(func() {
+			for _, a := range addrs {
+				poolsBefore[a] = n0.App.ValidatorsCache.IsPool(a)
+			}
+		})
+		lastBlock = rr.Block
+		return true
+	}, func(rr *scen.RoundResult) {
 		if rr.Flags.HasFlag(types.IdentityUpdate) {
 			idUpdates++
 		}
